@@ -1,6 +1,7 @@
 package symex
 
 import (
+	"sort"
 	"fmt"
 	"go/types"
 	"strings"
@@ -152,10 +153,24 @@ func (e *Engine) atLoopHeader(st *State, li *loopInfo) (bool, []*State) {
 		act.variant = e.evalInt(env, lc.Variant)
 	}
 	fr.active[li.header] = act
-	for _, u := range lc.Uses {
-		ut := e.evalBool(env, u)
-		assumed = append(assumed, ut)
-		act.uses = append(act.uses, ut)
+	if len(lc.Uses) > 0 {
+		// the guards of the instances are obligations under the loop invariants
+		su := st.clone()
+		for _, a := range assumed {
+			su.assume(a)
+		}
+		uenv := e.funcEnv(su)
+		for _, u := range lc.Uses {
+			ut := e.evalBool(uenv, u)
+			assumed = append(assumed, ut)
+			act.uses = append(act.uses, ut)
+		}
+		for k, v := range su.rw {
+			if st.rw == nil {
+				st.rw = map[*smt.Term]*smt.Term{}
+			}
+			st.rw[k] = v
+		}
 	}
 	if lc.Split != nil {
 		var outs []*State
@@ -180,6 +195,9 @@ func (e *Engine) atLoopHeader(st *State, li *loopInfo) (bool, []*State) {
 					na.uses = append(na.uses, smt.Subst(u, sub))
 				}
 				s2.fr.active[li.header] = &na
+				for k, v := range s2.rw {
+					s2.rw[k] = smt.Subst(v, sub)
+				}
 			} else {
 				for _, a := range assumed {
 					s2.assume(a)
@@ -235,7 +253,12 @@ func (e *Engine) havocLoop(st *State, li *loopInfo) {
 	var calls []*ssa.CallCommon
 	var callInstrs []ssa.Instruction
 	globals := map[*ssa.Global]bool{}
+	bodyBlocks := make([]*ssa.BasicBlock, 0, len(li.body))
 	for b := range li.body {
+		bodyBlocks = append(bodyBlocks, b)
+	}
+	sort.Slice(bodyBlocks, func(i, j int) bool { return bodyBlocks[i].Index < bodyBlocks[j].Index })
+	for _, b := range bodyBlocks {
 		for _, instr := range b.Instrs {
 			switch in := instr.(type) {
 			case *ssa.Store:
@@ -299,7 +322,17 @@ func (e *Engine) havocLoop(st *State, li *loopInfo) {
 		st.globals = map[*ssa.Global]Value{}
 	}
 	// cells
+	storedList := make([]*ssa.Alloc, 0, len(storedCells))
 	for a := range storedCells {
+		storedList = append(storedList, a)
+	}
+	sort.Slice(storedList, func(i, j int) bool {
+		if storedList[i].Pos() != storedList[j].Pos() {
+			return storedList[i].Pos() < storedList[j].Pos()
+		}
+		return storedList[i].Name() < storedList[j].Name()
+	})
+	for _, a := range storedList {
 		c, ok := fr.cells[a]
 		if !ok {
 			continue // allocated inside the loop
@@ -316,7 +349,12 @@ func (e *Engine) havocLoop(st *State, li *loopInfo) {
 	if havocEverything {
 		return
 	}
+	globalList := make([]*ssa.Global, 0, len(globals))
 	for g := range globals {
+		globalList = append(globalList, g)
+	}
+	sort.Slice(globalList, func(i, j int) bool { return globalList[i].String() < globalList[j].String() })
+	for _, g := range globalList {
 		gt := g.Type().(*types.Pointer).Elem()
 		v, f := freshValue("g:"+g.Name(), gt)
 		st.globals[g] = v
@@ -343,7 +381,8 @@ func (e *Engine) havocLoop(st *State, li *loopInfo) {
 		}
 	}
 	// element heaps: whole heap havoced, read-only arrays restored
-	for _, et := range elemTypes {
+	for _, ek := range smt.SortedKeys(elemTypes) {
+		et := elemTypes[ek]
 		for _, l := range leavesOf(et) {
 			name := elemHeapName(et, l.Suffix)
 			srt := smt.ArrayOf(smt.ArrayOf(l.Sort))
